@@ -57,6 +57,7 @@ SCENARIOS = [
     ("run", "ok"), ("run", "fail"), ("run", "retry"), ("run", "cc"),
     ("kill", "running"),
     ("ppr", "plain"), ("ppr", "cc"),          # the real PersistentProcessRunner worker loop (persistent_process_main) for a bounded number of polls
+    ("run", "pprchild"),                      # the dying runner is a pool worker of a live PersistentProcessRunner parent that prunes and replaces it
     ("run", "child"),                         # the dying runner is a worker process of a live MultiThreadRunner parent that keeps reporting its children
     ("recover", "pending"), ("recover", "running"),
 ]
@@ -177,7 +178,7 @@ def setup(case, db):
             st["finish_by_survivor"] = [b1.invocation_id]
             st["polls"] = 2 + mix
         elif role == "run":
-            inv = submit("t", {"ok": "ok", "fail": "fail", "retry": "retry", "child": "ok"}[scn])
+            inv = submit("t", {"ok": "ok", "fail": "fail", "retry": "retry", "child": "ok", "pprchild": "ok"}[scn])
             got = claim(app, R, 1)
             st["targets"] = [i.invocation_id for i in got]
             submit("by")
@@ -342,19 +343,28 @@ def snapshot(app, ids):
     return out
 
 
-def make_parent(app, dead_child_id):
-    """a real MultiThreadRunner parent (alive, in the survivor process) whose worker processes are stand-ins: the doomed one is dead"""
+def make_parent(app, dead_child_id, kind="mtr"):
+    """a real MultiThreadRunner / PersistentProcessRunner parent (alive, in the survivor process) whose worker processes are stand-ins:
+    the doomed one, tracked under its runner id, has just died"""
     from checks import c14
     import pynenc.runner.multi_thread_runner as mtr
+    import pynenc.runner.persistent_process_runner as ppr
     patch = c14.Patched(cpu=2)
-    parent = mtr.MultiThreadRunner(app)
+    parent = (mtr.MultiThreadRunner if kind == "mtr" else ppr.PersistentProcessRunner)(app)
     parent.running = True
     parent._on_start()
-    dead = c14.FakeProcess(); dead.start(); dead.die(-9)
-    live = c14.FakeProcess(); live.start()
-    parent.child_runner_ids.clear()
-    parent.child_runner_ids[dead_child_id] = dead
-    parent.child_runner_ids["live-child"] = live
+    if kind == "mtr":
+        dead = c14.FakeProcess(); dead.start(); dead.die(-9)
+        live = c14.FakeProcess(); live.start()
+        parent.child_runner_ids.clear()
+        parent.child_runner_ids[dead_child_id] = dead
+        parent.child_runner_ids["live-child"] = live
+    else:
+        # one of the pool's workers is the doomed runner: re-key its tracking entry to the doomed id, then it dies
+        first = next(iter(parent.child_runner_ids))
+        proc = parent.child_runner_ids.pop(first)
+        parent.child_runner_ids[dead_child_id] = proc
+        proc.die(-9)
     return parent, patch
 
 
@@ -488,8 +498,8 @@ def one_run(case, td, tag, crash_at, clock, hooks, V, distinct, double_at=None):
             last_cat = "recoverer:" + effect_category([r for r in rep2 if "effect" in r])
         at_crash = snapshot(app, accepted)
     parent = patch = None
-    if (case["role"], case["scenario"]) == ("run", "child"):
-        parent, patch = make_parent(app, R.runner_id)
+    if (case["role"], case["scenario"]) in (("run", "child"), ("run", "pprchild")):
+        parent, patch = make_parent(app, R.runner_id, "mtr" if case["scenario"] == "child" else "ppr")
     try:
         errors = recover_and_drain(app, S, st, clock, hooks, parent=parent)
     finally:
